@@ -361,6 +361,15 @@ def shapes(tier):
         spec = text_layout("jcc:s0", funcs=False)
         spec["mods"] = copy.deepcopy(mods)
         out.append(("nofunc/%s" % mods_name(mods), spec))
+    if tier == "thorough":
+        # the same scenarios on an x86-64 PE module (no alignment table by default, no ELF symbol tables, no
+        # attribute conversion rules): everything except the systematic pairs
+        for sid, spec in list(out):
+            if sid.startswith("syspairs/"):
+                continue
+            pe = copy.deepcopy(spec)
+            pe["fmt"] = "pe"
+            out.append(("pe/" + sid, pe))
     return out
 
 
